@@ -58,6 +58,8 @@ def wireTok (s : String) : Option Wire :=
   | "0" => some .checkin
   | "1" => some .task
   | "2" => some .callback
+  | "3" => some .unrelated
+  | "4" => some .unrelated
   | _ => none
 
 def whichTok (s : String) : Option Which :=
